@@ -2,6 +2,7 @@ package props
 
 import (
 	"bytes"
+	"context"
 	"fmt"
 	"math/rand"
 	"sync"
@@ -23,7 +24,9 @@ type c14Case struct {
 	Keys       int
 	Rounds     int
 	Decorator  bool
-	EdgeTrials int // >0: sequential trials presenting a key again just before its window ends
+	EdgeTrials int    // >0: sequential trials presenting a key again just before its window ends
+	Hasher     string // "" (key = a metadata field) | sha256 | adler32: the key is computed from a payload of 1 MiB, so that concurrent computations overlap
+	Junk       int    // sweep-gap: that many other live keys in the repository (a clean-up pass takes a while)
 }
 
 func runC14(c *Ctx) error {
@@ -39,6 +42,16 @@ func runC14(c *Ctx) error {
 	// barrier races on fresh keys (check-then-act windows are tiny)
 	for i := 0; i < c.Pick(6, 200); i++ {
 		cases = append(cases, c14Case{Class: "barrier", Window: 50 * time.Millisecond, Goroutines: 32, Keys: 40, Rounds: 0, Decorator: i%2 == 1})
+	}
+	// the built-in hashers are shared by all goroutines that go through the middleware
+	for i := 0; i < c.Pick(2, 12); i++ {
+		for _, hn := range []string{"sha256", "adler32"} {
+			cases = append(cases, c14Case{Class: "barrier/" + hn, Window: 300 * time.Millisecond, Goroutines: 8, Keys: 4, Rounds: 0, Decorator: i%2 == 1, Hasher: hn})
+		}
+	}
+	// arrivals of a remembered key while the clean-up pass of a big repository is under way
+	for i := 0; i < c.Pick(2, 10); i++ {
+		cases = append(cases, c14Case{Class: "sweep-gap", Window: 400 * time.Millisecond, Goroutines: 2, Junk: 250000, Decorator: i%2 == 1})
 	}
 	for i := 0; i < c.Pick(2, 20); i++ {
 		cases = append(cases, c14Case{Class: "decorator-overlap", Window: 50 * time.Millisecond, Keys: 3, Decorator: true})
@@ -71,12 +84,33 @@ func runC14(c *Ctx) error {
 }
 
 func c14Run(r *tr.Run, cs c14Case, rng *rand.Rand) {
+	created := time.Now()
 	repo, err := middleware.NewMapExpiringKeyRepository(cs.Window)
 	if err != nil {
 		r.Emit("error", "what", err.Error())
 		return
 	}
 	d := &middleware.Deduplicator{KeyFactory: middleware.NewMessageHasherFromMetadataField("key"), Repository: repo, Timeout: time.Second}
+	var payloads sync.Map // logical key -> payload
+	payloadOf := func(key string) []byte { return []byte(key) }
+	if cs.Hasher != "" {
+		const size = 1 << 20
+		if cs.Hasher == "sha256" {
+			d.KeyFactory = middleware.NewMessageHasherSHA256(2 * size)
+		} else {
+			d.KeyFactory = middleware.NewMessageHasherAdler32(2 * size)
+		}
+		payloadOf = func(key string) []byte {
+			if p, ok := payloads.Load(key); ok {
+				return p.([]byte)
+			}
+			p := make([]byte, size)
+			rand.New(rand.NewSource(int64(len(key))*7919 + int64(key[len(key)-1]))).Read(p)
+			copy(p, key)
+			q, _ := payloads.LoadOrStore(key, p)
+			return q.([]byte)
+		}
+	}
 	t0 := time.Now()
 	now := func() int64 { return int64(time.Since(t0) / time.Microsecond) }
 	var invoked sync.Map
@@ -105,7 +139,7 @@ func c14Run(r *tr.Run, cs c14Case, rng *rand.Rand) {
 		seq++
 		id := fmt.Sprintf("r%d-%d", r.ID, seq)
 		smu.Unlock()
-		m := message.NewMessage(id, []byte(key))
+		m := message.NewMessage(id, payloadOf(key))
 		m.Metadata.Set("key", key)
 		a := now()
 		var dup, acked bool
@@ -159,6 +193,28 @@ func c14Run(r *tr.Run, cs c14Case, rng *rand.Rand) {
 			close(gate)
 			<-done
 		}
+	case cs.Class == "sweep-gap":
+		for i := 0; i < cs.Junk; i++ {
+			_, _ = repo.IsDuplicate(context.Background(), fmt.Sprintf("junk-%d", i))
+		}
+		present("g0", "p")
+		// the clean-up ticker fires every half window after the repository was made; p stays remembered for a whole one
+		half := cs.Window / 2
+		tick := created.Add(half * (time.Since(created)/half + 1))
+		time.Sleep(time.Until(tick.Add(-3 * time.Millisecond)))
+		var wg sync.WaitGroup
+		for g := 0; g < cs.Goroutines; g++ {
+			wg.Add(1)
+			go func(g int) {
+				defer wg.Done()
+				for time.Now().Before(tick.Add(15 * time.Millisecond)) {
+					present(fmt.Sprintf("g%d", g+1), "p")
+					for t := time.Now(); time.Since(t) < 120*time.Microsecond; {
+					}
+				}
+			}(g)
+		}
+		wg.Wait()
 	case cs.Class == "refresh":
 		// one key presented again and again, faster than the window, for much longer than the window:
 		// it has to be let through again once its window is over (sightings of duplicates do not prolong it)
